@@ -123,7 +123,7 @@ func (o *c01Oracle) after(ch *chain, ci *callInfo) *Violation {
 	case "end":
 		for _, q := range ch.p.Blocks[ci.BlockIx].Queries {
 			q := q
-			if p := safeCall(func() { o.b.Query(abci.RequestQuery{Path: q.Path, Data: unhex(q.Data), Height: q.H}) }); p != nil {
+			if p := safeCall(func() { o.b.Query(abci.RequestQuery{Path: q.Path, Data: ch.queryData(&q), Height: q.H}) }); p != nil {
 				o.c.Label("extra-traffic-panicked")
 			}
 			o.extra++
@@ -150,6 +150,20 @@ func (o *c01Oracle) after(ch *chain, ci *callInfo) *Violation {
 		}
 		if !bytes.Equal(ci.Commit.Data, rb.Data) {
 			return diverge("app-hash", fmt.Sprintf("%X", ci.Commit.Data), fmt.Sprintf("%X", rb.Data))
+		}
+		// between blocks instance B also gets mempool-style traffic: a recheck of the block's transactions and a query
+		for i, txb := range ch.blockTxs {
+			if i >= 2 {
+				break
+			}
+			txb := txb
+			if p := safeCall(func() { o.b.CheckTx(abci.RequestCheckTx{Tx: txb}) }); p != nil {
+				o.c.Label("extra-traffic-panicked")
+			}
+			o.extra++
+		}
+		if p := safeCall(func() { o.b.Query(abci.RequestQuery{Path: "/custom/pos/validators", Data: ch.queryData(&hQuery{Tmpl: "page", A: 1, B: 100})}) }); p != nil {
+			o.c.Label("extra-traffic-panicked")
 		}
 		ia, ib := ch.app.Info(abci.RequestInfo{}), o.b.Info(abci.RequestInfo{})
 		if ia.LastBlockHeight != ci.Height || ib.LastBlockHeight != ci.Height || !bytes.Equal(ia.LastBlockAppHash, ci.Commit.Data) || !bytes.Equal(ib.LastBlockAppHash, ci.Commit.Data) {
